@@ -450,6 +450,12 @@ def gen_loop(rng, P=None):
         inputs["xs2"] = [70 + q for q in range(rng.choice([0, 1, 3, 4, 5]))]
         m.tasks[body[-1]].trans[0].pubs.append(("xs", ("ref", "xs2")))
         m.tags.add("loop_items_change")
+        if bound % 2 == 1 and first.items is not None:
+            # ... and whose concurrency is an expression over a variable that the looping transition lowers: every pass has
+            # its own window (decided by `bound`, no extra draw from the generator's random stream)
+            first.items["conc"] = ("expr", "k")
+            m.tasks[body[-1]].trans[0].pubs.append(("k", ("lit", 1)))
+            m.tags.add("loop_conc_change")
     if rng.random() < P.get("p_loop_count_changes", 0.3):
         # retry count taken from a variable that the loop itself lowers between visits
         first = m.tasks[body[0]]
@@ -501,7 +507,7 @@ def gen_loop(rng, P=None):
 
 
 def _tag(m):
-    tags = set(t for t in m.tags if t in ("latevar", "loop", "loop_join", "loop_fork", "loop_fork_single", "loop_multi_entry", "loop_items_change", "loop_head_join", "loop_fork_join"))
+    tags = set(t for t in m.tags if t in ("latevar", "loop", "loop_join", "loop_fork", "loop_fork_single", "loop_multi_entry", "loop_items_change", "loop_conc_change", "loop_head_join", "loop_fork_join"))
     for t in m.tasks.values():
         if t.join is not None:
             tags.add("join")
@@ -792,4 +798,47 @@ def gen_mcycle(idx):
     m.output = [("v%d" % q, ("ref", "v%d" % q), ("yaql", "jinja")[q % 2]) for q in range(k)] + [("x", ("ref", "x"), "yaql"), ("i", ("ref", "i"), "yaql")]
     _tag(m)
     m.tags |= {"loop", "loop_multi_entry", "publish", "mcycle"}
+    return m, {}
+
+
+def remloop_family():
+    return [(conc, bound, via, ok_next) for conc in (None, 1, 2) for bound in (1, 2) for via in ("fix", "self")
+            for ok_next in (False, True)]
+
+
+def gen_remloop(idx):
+    """remediation loops around a with-items task: T (items over xs, optional concurrency) fails when an item fails; its
+    failure transition counts the pass and leads back to T - directly or through a plain task `fix` - at most `bound`
+    times; success leads on to `done` (or ends).  Every visit of T is a new execution with all of its items."""
+    fam = remloop_family()
+    conc, bound, via, ok_next = fam[idx % len(fam)]
+    m = Model()
+    m.input = [("xs", [10, 20, 30]), ("n", 2), ("k", 2)]
+    m.vars = [("i", 0), ("x", "init")]
+    init = Task("init")
+    init.action = "ovf.ok"
+    init.trans.append(Tr(0, cond=("succeeded",), lang="yaql", do=["T"]))
+    m.tasks["init"] = init
+    t = Task("T")
+    t.items = dict(var="xs", conc=conc, named=None)
+    t.action = "core.echo"
+    t.ainput = {"message": ("item",)}
+    back = "fix" if via == "fix" else "T"
+    t.trans.append(Tr(0, cond=("and", ("failed",), ("ctx_lt", "i", bound)), lang="yaql",
+                      pubs=[("i", ("inc", "i")), ("x", ("cat", "x", "|again"))], do=[back]))
+    if ok_next:
+        t.trans.append(Tr(1, cond=("succeeded",), lang="jinja", pubs=[("x", ("cat", "x", "|ok"))], do=["done"]))
+        d = Task("done")
+        d.action = "ovf.ok"
+    m.tasks["T"] = t
+    if via == "fix":
+        f = Task("fix")
+        f.action = "ovf.ok"
+        f.trans.append(Tr(0, cond=("succeeded",), lang="yaql", do=["T"]))
+        m.tasks["fix"] = f
+    if ok_next:
+        m.tasks["done"] = d
+    m.output = [("x", ("ref", "x"), "yaql"), ("i", ("ref", "i"), "yaql")]
+    _tag(m)
+    m.tags |= {"loop", "items", "remloop"}
     return m, {}
